@@ -41,10 +41,14 @@ impl Reorg {
             .into_option()?;
 
           if index_block_hash == bitcoind_block_hash {
+            #[cfg(feature = "verif")]
+            crate::verif::point("reorg.recoverable", height.into(), depth.into());
             return Err(anyhow!(reorg::Error::Recoverable { height, depth }));
           }
         }
 
+        #[cfg(feature = "verif")]
+        crate::verif::point("reorg.unrecoverable", height.into(), 0);
         Err(anyhow!(reorg::Error::Unrecoverable))
       }
       _ => Ok(()),
@@ -58,6 +62,9 @@ impl Reorg {
       panic!("set index durability to `Durability::Immediate` to test reorg handling");
     }
 
+    #[cfg(feature = "verif")]
+    crate::verif::point("rollback.start", height.into(), depth.into());
+
     let mut wtx = index.begin_write()?;
 
     let oldest_savepoint =
@@ -66,7 +73,15 @@ impl Reorg {
     wtx.restore_savepoint(&oldest_savepoint)?;
 
     Index::increment_statistic(&wtx, Statistic::Commits, 1)?;
+    #[cfg(feature = "verif")]
+    crate::verif::point("rollback.before_commit", height.into(), depth.into());
     wtx.commit()?;
+    #[cfg(feature = "verif")]
+    crate::verif::point(
+      "rollback.after_commit",
+      height.into(),
+      index.begin_read()?.block_count()?.into(),
+    );
 
     log::info!(
       "successfully rolled back database to height {}",
@@ -123,23 +138,35 @@ impl Reorg {
           index.settings.max_savepoints()
         );
         wtx.delete_persistent_savepoint(savepoints.into_iter().min().unwrap())?;
+        #[cfg(feature = "verif")]
+        crate::verif::point("savepoint.deleted", height.into(), 0);
       }
 
       Index::increment_statistic(&wtx, Statistic::Commits, 1)?;
+      #[cfg(feature = "verif")]
+      crate::verif::point("savepoint.before_cleanup_commit", height.into(), 0);
       wtx.commit()?;
+      #[cfg(feature = "verif")]
+      crate::verif::point("savepoint.between", height.into(), 0);
 
       let wtx = index.begin_write()?;
 
       log::info!("Creating savepoint at height {height}");
 
       wtx.persistent_savepoint()?;
+      #[cfg(feature = "verif")]
+      crate::verif::point("savepoint.created", height.into(), 0);
 
       wtx
         .open_table(STATISTIC_TO_COUNT)?
         .insert(&Statistic::LastSavepointHeight.key(), &height.into())?;
 
       Index::increment_statistic(&wtx, Statistic::Commits, 1)?;
+      #[cfg(feature = "verif")]
+      crate::verif::point("savepoint.before_commit", height.into(), 0);
       wtx.commit()?;
+      #[cfg(feature = "verif")]
+      crate::verif::point("savepoint.after_commit", height.into(), 0);
     }
 
     Ok(())
